@@ -5,6 +5,7 @@ import OSProofs.Props.FL2
 import OSProofs.MonoArithInst
 import OSProofs.Props.PredictLoops
 import OSProofs.Props.FL4Inst
+import OSProofs.Props.FL5Inst
 #print axioms OS.C11_ranks_length
 #print axioms OS.C11_rankData_range
 #print axioms OS.C11_rankData_strict
@@ -58,3 +59,12 @@ import OSProofs.Props.FL4Inst
 #print axioms OS.predictRankLoop_eq_mono
 #print axioms OS.rankDataCode_eq_rn
 #print axioms OS.predictRankLoop_eq_rn
+#print axioms OS.FL_C11_probs_monotone_team_own
+#print axioms OS.FL_C11_probs_monotone_team_other
+#print axioms OS.FL_C11_probs_monotone_own
+#print axioms OS.FL_C11_probs_monotone_other
+#print axioms OS.FL_C11_probs_monotone_own_rn
+#print axioms OS.FL_C11_probs_monotone_other_rn
+#print axioms OS.PhiMono.real
+#print axioms OS.PhiMono.rn
+#print axioms OS.FL5_PhiMono_independent
